@@ -138,6 +138,19 @@ def scope_sqlite(prog, rep, methods=None, rule="SCOPE"):
                     v = lvl.values[lvl.columns.index("bucketrow")]
                     ok, why = _is_scope_subselect(v, s, bp)
                     rep.check(ok, rule, fi.short, cons, "bucketrow value is the addressed bucket's rowid", f"inserted row is not tied to the addressed bucket: {why}", s.loc(), found=lvl.text())
+                    u = getattr(lvl, "upsert", None)
+                    if u is not None:
+                        # INSERT ... ON CONFLICT(key) DO UPDATE: the UPDATE part rewrites the EXISTING row that has the key
+                        def _same_bucket(c):
+                            l, r = c.left, c.right
+                            return c.op in ("=", "==") and l.kind == "col" and r.kind == "col" and l.name == r.name == "bucketrow" and {(l.qual or "events"), (r.qual or "events")} == {"events", "excluded"}
+                        scoped = "bucketrow" in u["target"] or (not u["where"].has_or and any(_same_bucket(c) for c in u["where"].where))
+                        if u["action"] == "nothing":
+                            rep.undecided(rule, fi.short, cons + " ON CONFLICT DO NOTHING", "an insert that meets an existing key is silently dropped: not modelled", s.loc())
+                        elif any(c_ in ("bucketrow", "id") for c_, _e in u["sets"]):
+                            rep.violation(rule, fi.short, cons + " ON CONFLICT DO UPDATE", f"the upsert re-assigns {[c_ for c_, _e in u['sets'] if c_ in ('bucketrow', 'id')]} of an existing row: the event moves to another bucket / changes its global id", s.loc(), found=lvl.text())
+                        else:
+                            rep.check(scoped, rule, fi.short, cons + " ON CONFLICT DO UPDATE", "the conflicting row is updated only if it belongs to the addressed bucket", f"the upsert resolves a conflict on {u['target'] or 'any unique key'} by UPDATING the existing row with that key, whichever bucket it belongs to (event ids are global): an event for this bucket that carries the id of another bucket's event overwrites that event in place", s.loc(), expected="... DO UPDATE SET ... WHERE events.bucketrow = excluded.bucketrow", found=lvl.text())
                     if getattr(lvl, "or_replace", False) and "id" in lvl.columns:
                         rep.violation(rule, fi.short, cons + " OR REPLACE", "INSERT OR REPLACE with an explicit id resolves a primary-key conflict by DELETING the existing row with that id, whichever bucket it belongs to (event ids are global): a batch for this bucket that carries the id of another bucket's event removes that event from its bucket", s.loc(), expected="UPDATE ... WHERE id = ? AND bucketrow = <this bucket> for id-bearing events", found=lvl.text())
                     continue
@@ -847,6 +860,13 @@ def _upsert_routes(prog, fi, rep, rule):
     for l in walk_own(fi.node):
         if isinstance(l, ast.For) and is_param_ref(l.iter, fi, "events") and isinstance(l.target, ast.Name):
             body = [x for x in l.body if not (isinstance(x, ast.Expr) and isinstance(x.value, ast.Constant))]
+            if len(body) >= 2 and isinstance(body[0], ast.If) and not body[0].orelse and len(body[0].body) == 1 and isinstance(body[0].body[0], ast.Continue) and not any(isinstance(x, (ast.Continue, ast.Break)) for b_ in body[1:] for x in ast.walk(b_)):
+                # `if <id test>: continue` in front of the body: the body runs for the other partition
+                k0 = _id_partition(body[0].test, l.target.id)
+                if k0 is not None:
+                    inner = ast.For(target=l.target, iter=l.iter, body=body[1:], orelse=[])
+                    routes.append({"kind": "none" if k0 == "has" else "has", "sink": sink_of_loop(inner, l.target.id), "node": l})
+                continue
             if len(body) == 1 and isinstance(body[0], ast.If) and not body[0].orelse:
                 k = _id_partition(body[0].test, l.target.id)
                 if k is not None:
@@ -972,3 +992,67 @@ def idalloc_memory(prog, rep, rule="IDALLOC"):
             src = deep(it, m)
             if isinstance(src, ast.Call) and norm(src.func) in ("copy.deepcopy", "deepcopy") and src.args:
                 rep.violation(rule, m.short, f"{tv.id}.id = {norm(ids[0].value)[:40]}", f"ids are assigned to the elements of a list that was deep-copied as a whole (`{norm(src)[:70]}`): deepcopy keeps objects that occur twice in the caller's list as ONE object, so both slots of the bucket hold the same event and end up with the same (last) id: ids are no longer unique within the bucket", m.loc(ids[0]), expected="one copy per element (copy.deepcopy(event) inside the loop)", found=norm(src)[:100])
+
+
+def idalloc_sql(prog, rep, rule="IDALLOC"):
+    """the id an SQL backend reports for a new event is the id the engine allocated for the row this call wrote"""
+    from .trace import deep
+
+    rep.rule(rule, "SQL backends: the id insert_one puts on the event it returns is the engine's id of the row written by this call (sqlite: <cursor>.lastrowid of the cursor that executed the single INSERT INTO events; peewee: the primary key of the model instance that was saved / created / the value insert().execute() returned); an id read back by a query ('the newest row', 'the largest id') names another event whenever the new one is not the newest / a concurrent writer got in between")
+    # ---- sqlite
+    fi = prog.func("SqliteStorage.insert_one")
+    rep.unit("functions", fi.qname)
+    sites = [s for s in sql_sites(prog) if s.fi is fi]
+    asg = [n for n in walk_own(fi.node) if isinstance(n, ast.Assign) and any(isinstance(t, ast.Attribute) and t.attr == "id" for t in n.targets) and not (isinstance(n.value, ast.Constant) and n.value.value is None)]
+    if not asg:
+        rep.undecided(rule, fi.short, "new id", "no assignment to <event>.id in insert_one: cannot see where the reported id comes from", fi.loc())
+    for a in asg:
+        v = a.value
+        dv = deep(v, fi)
+        cons = f"{norm(a.targets[0])} = {norm(v)[:40]}"
+        sel = [s for s in sites if s.stmt.kind == "select" and norm(s.call) in norm(dv)]
+        if isinstance(v, ast.Attribute) and v.attr == "lastrowid":
+            r = v.value
+            if isinstance(r, ast.Name):
+                on = [s for s in sites if isinstance(s.call.func.value, ast.Name) and s.call.func.value.id == r.id]
+                d_ = single_def(fi, r.id)
+                # cursor = self.conn.execute(<INSERT>): the cursor the statement returned
+                on += [s for s in sites if s.call is d_ and s not in on]
+            else:
+                on = [s for s in sites if s.call is r]
+            ins = [s for s in on if s.stmt.kind == "insert" and s.stmt.table == "events" and not s.many]
+            ok = len(ins) == 1 and len(on) == 1
+            rep.check(ok, rule, fi.short, cons, "lastrowid of the cursor that executed the one INSERT INTO events", f"`{norm(v)}` is the lastrowid of a cursor that executed {[s.stmt.kind + (' (executemany)' if s.many else '') for s in on] or 'no statement'}: not the id of the one row this call inserted (executemany leaves lastrowid undefined; a later statement on the cursor overwrites it)", fi.loc(a))
+        elif sel:
+            rep.violation(rule, fi.short, cons, f"the id reported for the new event is read back with a query (`{sel[0].stmt.text()[:90]}`), it is not the id the engine allocated for the inserted row: when the new event is not the one the query ranks first (e.g. it is older than a stored one) the caller is given ANOTHER event's id, so ids are not unique and get_by_id returns the wrong event", fi.loc(a))
+        else:
+            rep.undecided(rule, fi.short, cons, f"unrecognised id source `{norm(dv)[:80]}`", fi.loc(a))
+    # ---- peewee
+    fi = prog.func("PeeweeStorage.insert_one")
+    rep.unit("functions", fi.qname)
+    asg = [n for n in walk_own(fi.node) if isinstance(n, ast.Assign) and any(isinstance(t, ast.Attribute) and t.attr == "id" for t in n.targets) and not (isinstance(n.value, ast.Constant) and n.value.value is None)]
+    if not asg:
+        rep.undecided(rule, fi.short, "new id", "no assignment to <event>.id in insert_one", fi.loc())
+    for a in asg:
+        v = a.value
+        cons = f"{norm(a.targets[0])} = {norm(v)[:40]}"
+        dv = deep(v, fi)
+        t = norm(dv)
+        if isinstance(v, ast.Attribute) and v.attr in ("id", "get_id") and isinstance(v.value, ast.Name):
+            m = v.value.id
+            d = single_def(fi, m)
+            made = isinstance(d, ast.Call) and norm(d.func) in ("EventModel.from_event", "EventModel", "EventModel.create")
+            saved = norm(d.func) == "EventModel.create" if made else False
+            saved = saved or any(isinstance(c, ast.Call) and isinstance(c.func, ast.Attribute) and c.func.attr == "save" and isinstance(c.func.value, ast.Name) and c.func.value.id == m for c in walk_own(fi.node))
+            if made:
+                rep.check(saved, rule, fi.short, cons, "primary key of the model instance saved by this call", f"`{m}` is built but never saved before its id is read: the id is None", fi.loc(a))
+            elif ".select(" in t or ".get(" in t or ".first(" in t:
+                rep.violation(rule, fi.short, cons, f"the id reported for the new event is read back with a query (`{t[:90]}`), not taken from the row this call saved: it names another event whenever the new one is not ranked first", fi.loc(a))
+            else:
+                rep.undecided(rule, fi.short, cons, f"unrecognised id source `{t[:80]}`", fi.loc(a))
+        elif ".insert(" in t and t.endswith(".execute()"):
+            rep.ok(rule, fi.short, cons, "value returned by insert().execute()", fi.loc(a))
+        elif ".select(" in t or ".get(" in t or ".first(" in t or ".scalar(" in t:
+            rep.violation(rule, fi.short, cons, f"the id reported for the new event is read back with a query (`{t[:90]}`), not taken from the row this call saved: it names another event whenever the new one is not ranked first", fi.loc(a))
+        else:
+            rep.undecided(rule, fi.short, cons, f"unrecognised id source `{t[:80]}`", fi.loc(a))
